@@ -20,6 +20,7 @@ package accumulation
 //verif:init go/parser
 //verif:init go/printer
 //verif:init golang.org/x/tools/internal/typeparams
+//verif:init golang.org/x/exp/typeparams
 //verif:zero golang.org/x/tools/go/types/typeutil.theSeed
 //verif:init golang.org/x/tools/go/ssa
 //verif:init unicode
